@@ -189,8 +189,13 @@ fn check_sig(w: &mut W, s: &Sig, tier: Tier, res: &mut Res) {
     let v = format!("(VALUES {}) v(id, {})", rows.join(", "), cols.join(", "));
     let call_cols = fnreg::call_sql(&s.name, &cols).unwrap();
     let expect: BTreeMap<i128, Val> = ok.iter().map(|&i| (i as i128, match &lit[i] { Some(Cell::V(v)) => v.clone(), _ => Val::Null })).collect();
+    // contexts whose name starts with "case-" carry a trailing boolean column: true = the row's value is checked,
+    // false = no branch evaluates the call for that row and the CASE must yield NULL
     let mut ctxs: Vec<(&str, Vec<String>, String, usize)> = vec![
         ("flat", vec![], format!("SELECT id, {call_cols} FROM {v}"), 1),
+        ("case-mixed", vec![], format!("SELECT id, CASE WHEN id % 3 <> 1 THEN {call_cols} END, id % 3 <> 1 FROM {v}"), 1),
+        ("case-nested", vec![], format!("SELECT id, CASE WHEN id % 2 = 0 THEN CASE WHEN id % 3 <> 1 THEN {call_cols} END ELSE CASE WHEN id % 3 = 0 THEN {call_cols} END END, (id % 2 = 0 AND id % 3 <> 1) OR (id % 2 <> 0 AND id % 3 = 0) FROM {v}"), 1),
+        ("case-nested-selection", vec![], format!("SELECT id, CASE WHEN id % 4 <> 0 THEN CASE WHEN id % 2 = 1 THEN {call_cols} END END, id % 2 = 1 FROM {v} WHERE id % 5 <> 2"), 1),
         ("selection", vec![], format!("SELECT id, {call_cols} FROM {v} WHERE id % 2 = 0"), 1),
         ("case", vec![], format!("SELECT id, CASE WHEN id % 3 <> 1 THEN {call_cols} END FROM {v} WHERE id % 3 <> 1"), 1),
         ("cse", vec![], format!("SELECT id, {call_cols}, {call_cols} FROM {v} WHERE ({call_cols}) IS NOT NULL OR id >= 0"), 2),
@@ -226,6 +231,18 @@ fn check_sig(w: &mut W, s: &Sig, tier: Tier, res: &mut Res) {
                     };
                     for k in 0..*ncopies {
                         let got = nv(&row[1 + k]);
+                        if cname.starts_with("case-") {
+                            match row.last() {
+                                Some(Val::Bool(true)) => {}
+                                _ => {
+                                    if !got.is_null() {
+                                        fail(res, format!("C05|ctx-differs:{cname}|{name}"), sql, sets, format!("NULL (no branch of the CASE is taken for row {id})"), format!("{got}"), "a CASE without a true branch must yield NULL".into());
+                                        break;
+                                    }
+                                    continue;
+                                }
+                            }
+                        }
                         if let Some(want) = expect.get(&id) {
                             if &got != want {
                                 fail(res, format!("C05|ctx-differs:{cname}|{name}"), sql, sets, format!("{want} (as on literals) for tuple ({})", tuples[id as usize].join(", ")), format!("{got}"), "value depends on the evaluation context".into());
